@@ -103,6 +103,18 @@ func (in *Interp) ret(st *State, results []ast.Expr, pos token.Pos) {
 				} else if in.guardImpliesNonNil(vv.Path) {
 					r.IsErr = true
 				}
+			default:
+				// any other abstract error value (the joined result of an inlined helper): an error exit
+				// when the path condition says it is not nil
+				if len(results) == len(rts) && i < len(results) {
+					if in.guardImpliesNonNil(in.operandVal(st, results[i], v)) {
+						r.IsErr = true
+					}
+				} else if len(results) == 0 && i < len(in.results) {
+					if in.guardImpliesNonNil(in.results[i].Name()) || in.guardImpliesNonNil(v.valString()) {
+						r.IsErr = true
+					}
+				}
 			}
 		}
 	}
